@@ -49,6 +49,11 @@ fn pair_case(out: &mut Out, a: &[u32], b: &[u32]) {
     let mv = comps(&m);
     out.m(&format!("vc-cmp {} {}", sa, sb), cab);
     out.m(&format!("vc-eq {} {}", sa, sb), &sx::b(eab));
+    // the comparison OPERATORS (`lt` / `le` / `gt` / `ge` of PartialOrd, `ne` of PartialEq): provided methods that an impl
+    // may override; they must say what `partial_cmp` / `eq` say
+    out.m(&format!("vc-ops {} {}", sa, sb), &format!("({} {} {} {} {})", sx::b(ca < cb), sx::b(ca <= cb), sx::b(ca > cb), sx::b(ca >= cb), sx::b(ca != cb)));
+    // the same as a LAW on the implementation's own answers: the operators agree with its `partial_cmp` and `==`
+    out.o(&format!("o-vc-ops {} {} {} {} {} {} {}", cab, sx::b(eab), sx::b(ca < cb), sx::b(ca <= cb), sx::b(ca > cb), sx::b(ca >= cb), sx::b(ca != cb)));
     out.m(&format!("vc-merge {} {}", sa, sb), &sx::nums(&mv));
     out.o(&format!(
         "o-vc-pair {} {} {} {} {} {} {} {} {}",
